@@ -106,10 +106,24 @@ func init() {
 		g.pending = nil
 	}
 
+	// ctxOp: a visible operation whose footprint is the context objects (and done channels) it touches
+	var subtree func(c *ctxObj, out []interface{}) []interface{}
+	subtree = func(c *ctxObj, out []interface{}) []interface{} {
+		out = append(out, c, c.done)
+		for _, ch := range c.children {
+			out = subtree(ch, out)
+		}
+		return out
+	}
+	ctxOp := func(fr *frame, objs []interface{}) {
+		g := fr.gor()
+		fr.ex.rt.visible(g, &pendingOp{kind: opAtomic, objs: objs})
+		g.pending = nil
+	}
 	mkCancel := func(c *ctxObj) Value {
 		return &nativeFunc{name: "context.CancelFunc", f: func(fr *frame, args []Value) Value {
 			ex := fr.ex
-			globalOp(fr)
+			ctxOp(fr, subtree(c, nil))
 			ex.rt.cancelCtx(c, ex.ctxErr("Canceled"))
 			return nil
 		}}
@@ -153,10 +167,8 @@ func init() {
 	errf := func(fr *frame, args []Value) Value {
 		ex := fr.ex
 		c := ex.ctxOf(args[0])
-		// reading Err synchronises with cancel
-		g := fr.gor()
-		ex.rt.visible(g, &pendingOp{kind: opGlobal})
-		g.pending = nil
+		// reading Err synchronises with cancel (of this context or an ancestor)
+		ctxOp(fr, []interface{}{c})
 		if c.err == nil {
 			return Iface{}
 		}
